@@ -351,6 +351,80 @@ fn check_parse(text: &str) -> Option<Violation> {
     }
 }
 
+/// pieces of string literal source text: escapes of every form, and the characters that may follow them
+const LITERAL_PIECES: &[&str] = &[
+    "\\0", "\\9", "\\10", "\\065", "\\255", "\\010", "\\001", "\\000", "\\09", "\\x41", "\\x0a", "\\xFF", "\\u{41}", "\\u{7FF}", "\\u{10FFFF}", "\\u{0}", "\\z ", "\\z\n  ", "\\\n", "\\n", "\\r", "\\t",
+    "\\a", "\\b", "\\f", "\\v", "\\\\", "\\\"", "\\'", "0", "1", "9", "a", "F", "f", " ", "{", "}", "x", "u", "z", "é",
+];
+
+/// every sequence of up to `n` pieces between double quotes, single quotes and (without escapes) as a backtick string
+fn literal_texts(n: usize) -> Vec<String> {
+    let mut bodies: Vec<String> = vec![String::new()];
+    let mut cur: Vec<String> = vec![String::new()];
+    for _ in 0..n {
+        let mut next = Vec::new();
+        for b in &cur {
+            for p in LITERAL_PIECES {
+                next.push(format!("{}{}", b, p));
+            }
+        }
+        bodies.extend(next.iter().cloned());
+        cur = next;
+    }
+    let mut out = Vec::new();
+    for b in bodies {
+        out.push(format!("\"{}\"", b));
+        out.push(format!("'{}'", b));
+        if !b.contains('{') && !b.contains('}') {
+            out.push(format!("`{}`", b));
+        }
+    }
+    out
+}
+
+/// the value darklua gives a string literal of the source must be the value the language gives it
+fn check_string_parse(text: &str) -> Option<Violation> {
+    let expected = match lex(text.as_bytes(), Mode::Luau) {
+        Ok(l) => match l.tokens.first().map(|t| t.tok.clone()) {
+            Some(Tok::Str(v)) if l.tokens.len() == 2 => v,
+            Some(Tok::InterpSimple(v)) if l.tokens.len() == 2 => v,
+            _ => return None,
+        },
+        Err(_) => return None,
+    };
+    let src = format!("return {}", text);
+    let block = match dl::parse(&src, false) {
+        Ok(b) => b,
+        Err(e) if e.starts_with("PANIC") => return Some(Violation { finding: None, summary: format!("{} on literal {}", e, text), replay: json!({"text": text}) }),
+        Err(_) => return None,
+    };
+    let value: Option<Vec<u8>> = match block.get_last_statement() {
+        Some(LastStatement::Return(r)) => match r.iter_expressions().next() {
+            Some(Expression::String(s)) => Some(s.get_value().to_vec()),
+            Some(Expression::InterpolatedString(s)) => {
+                let mut bytes = Vec::new();
+                for segment in s.iter_segments() {
+                    match segment {
+                        darklua_core::nodes::InterpolationSegment::String(part) => bytes.extend_from_slice(part.get_value()),
+                        darklua_core::nodes::InterpolationSegment::Value(_) => return None,
+                    }
+                }
+                Some(bytes)
+            }
+            _ => None,
+        },
+        _ => None,
+    };
+    match value {
+        Some(v) if v == expected => None,
+        other => Some(Violation {
+            finding: None,
+            summary: format!("string literal {} is read by darklua as {:?}; its value is {:?}", text, other.map(|v| crate::luaref::interp::quote_bytes(&v)), crate::luaref::interp::quote_bytes(&expected)),
+            replay: json!({"kind": "string parse", "text": text}),
+        }),
+    }
+}
+
 pub fn run(tier: Tier) -> Report {
     let mut report = Report::new("C13", "exploration", tier);
     report.rule = "strings: ALL byte strings of length <= 2 (65 793), all strings of length 3 (4 in thorough) over 23 class bytes, the long-bracket \
@@ -360,7 +434,7 @@ pub fn run(tier: Tier) -> Report {
         5.1 rules. numbers: +-0, inf, nan, all 2098 powers of two, all powers of ten and 1.5/9.99..e(k), each +-1 ulp (2 in thorough), 2^53 neighbours, \
         hard cases; via Expression::from(f64) and DecimalNumber with recorded exponents -3..+3 and both cases; read back by luaref (bit-exact). parsing: \
         every text over `0-9 _ . e E x X b B a F + -` up to 5 (6) characters that luaref lexes as one Luau number is parsed by darklua and \
-        compute_value() compared bit-exactly. non-trivial = the writer had to escape or choose a quoting form / the number needs more than 3 digits"
+        compute_value() compared bit-exactly; every sequence of up to 2 (3) pieces from 42 string-literal pieces (every escape form, digits and hex digits that may follow one, braces) in double quotes, single quotes and backticks is parsed by darklua and its value compared with the luaref lexer's. non-trivial = the writer had to escape or choose a quoting form / the number needs more than 3 digits"
         .to_owned();
     report.assumptions = vec![
         "the luaref lexer implements Lua 5.1 and Luau escape and numeral rules (manual §2.1; Luau lexer)".to_owned(),
@@ -400,6 +474,13 @@ pub fn run(tier: Tier) -> Report {
         report.violations.push(v);
     }
     report.set("number_literal_texts", texts.len() as u64);
+    let lits = literal_texts(tier.pick(2, 3));
+    let res: Vec<Option<Violation>> = lits.par_iter().map(|t| check_string_parse(t)).collect();
+    report.evaluations += lits.len() as u64;
+    for v in res.into_iter().flatten() {
+        report.violations.push(v);
+    }
+    report.set("string_literal_texts", lits.len() as u64);
     for idx in [11usize, 300, 70000 % strs.len(), strs.len() - 5000, strs.len() - 40] {
         let value = &strs[idx];
         let texts: Vec<String> = shapes(value)
